@@ -20,6 +20,7 @@ Line protocol of the C07 model (see harness/src/props/c07.rs):
 * `vint32_enc <n>` (serialize_vint_u32) → hex; `vint32_dec <hex>` (read_u32_vint_no_advance) → `<n> <len>` | `err`
 * `recycle <opt> <df1> <hex1> <A<k>|D|S<target>> <df2> <hex2>` → `<docs>|<tfs>` drained from a block cursor opened on list 1, moved, then reset to list 2
 * `lazyseeks <opt> <doc_freq> <hex> <targets>` → the doc each `BlockSegmentPostings::seek` of the program lands on (lazy cursor model)
+* `lazyops <opt> <doc_freq> <hex> <A|S<target>,…>` → after each block-level op (`advance`: first doc of the new block; `seek`: the doc landed on)
 * `lazyseeks_tf <opt> <doc_freq> <hex> <targets>` → the term frequency the frequency buffer shows after each seek (0 when the seek ran off the end)
 * `tis_write <df:ps:pe:qs:qe;…>` → hex of the TermInfoStore bytes; `tis_get <hex> <ord>` → `df:ps:pe:qs:qe` | `err`
 * `numbits <n>`; `fn_to_id <n>`; `id_to_fn <i>`
@@ -243,6 +244,14 @@ def handle : List String → String
     match parseOpt o, df.toNat?, natsOfHex h, natList ts with
     | some o, some df, some b, some ts =>
       showNatList (BlockPostings.seekAll cfg (BlockPostings.open cfg o o df b) ts)
+    | _, _, _, _ => "bad-op"
+  | ["lazyops", o, df, h, prog] =>
+    let parseOp := fun (w : String) =>
+      if w == "A" then some BOp.advance
+      else if w.startsWith "S" then (w.drop 1).toNat?.map BOp.seek else none
+    match parseOpt o, df.toNat?, natsOfHex h, (if prog == "-" then some [] else (prog.splitOn ",").mapM parseOp) with
+    | some o, some df, some b, some ops =>
+      showNatList (BlockPostings.runOps cfg (BlockPostings.open cfg o o df b) ops)
     | _, _, _, _ => "bad-op"
   | ["lazyseeks_tf", o, df, h, ts] =>
     match parseOpt o, df.toNat?, natsOfHex h, natList ts with
